@@ -5,3 +5,4 @@ import Cfdp.Props.C14
 import Cfdp.Props.C12
 import Cfdp.Props.C05
 import Cfdp.Props.C06
+import Cfdp.Props.C16
